@@ -20,7 +20,7 @@
   (`*_unbiased`).  The measure-theoretic wrapping (Lebesgue measure of `[0,frac]` is `frac`) is
   not formalised.
 
-  Three defects found by this check were repaired in /repo (known/C08.json "fixed"); the model
+  Four defects found by this check were repaired in /repo (known/C08.json "fixed"; the fourth, c0623bb, by the C06 fix round); the model
   mirrors the repaired code and each repair keeps a regression witness here:
    e93b27f  quantized_relu / quantized_tanh / quantized_sigmoid pass precision=1.0
             (`C08_act_impl_precision`, `C08_relu_regression_9_32`; what precision 1/2 did:
